@@ -88,6 +88,12 @@ func genC13(cfg Config, emit Emit) error {
 	}
 	genCbor(cfg, emit, nc)
 	genCborBlocks(cfg, emit, nb)
+	// the wire format model: root block bytes from the fields the library exposes
+	nw, nu := 60, 120
+	if cfg.Thorough() {
+		nw, nu = 1500, 3000
+	}
+	genWire(cfg, emit, nw, nu)
 	return nil
 }
 
